@@ -96,6 +96,9 @@ func c04Gen(tier string, seed int64) []fw.Case {
 	for i := 0; i < 16; i++ {
 		cs = append(cs, fw.Mk(fmt.Sprintf("rand-%d", i), c04Params{Mode: "rand", N: nrand}))
 	}
+	for i := 0; i < 4; i++ {
+		cs = append(cs, fw.Mk(fmt.Sprintf("through-retrying-clients-%d", i), c04Params{Mode: "retry", N: nrand / 10, Part: i}))
+	}
 	return cs
 }
 
@@ -326,6 +329,37 @@ func c04Run(c fw.Case, env *fw.Env) fw.Result {
 		return true
 	}
 	switch {
+	case p.Mode == "retry":
+		// the same hand-over rule through the retrying / reconnecting clients, whose handler travels from one
+		// BaseClient to the next: messages pushed right behind every CONNACK, mid-connection and around cuts
+		rng := env.Rng(c)
+		wl := []string{"in1", "in2", "in4", "in5", "respond", "echo"}
+		for i := 0; i < p.N; i++ {
+			rp := retryParams{W: wl[(i+p.Part)%len(wl)], Cfg: scen.BrokerCfg{Method: "A", Session: []string{"keep", "lose"}[i%2]}, Chunk: []int{0, 1, 3}[i%3], Client: []string{"", "retry", "retry-retryfirst"}[(i/2)%3], Mode: "random", N: 1}
+			for _, sc := range rp.scenarios(rng) {
+				sc := sc
+				run := scen.Exec(&sc)
+				r.Evals++
+				if run.Inconcl != "" {
+					r.Counters["inconclusive_runs"]++
+					continue
+				}
+				a := scen.Analyse(run)
+				f, checked, _ := a.HandlerCheck()
+				r.Counters["inbound_through_retrying_clients_checked"] += checked
+				if len(f) > 0 {
+					r.Verdict = fw.Violated
+					r.Sig = "retrying-client:" + f[0].Sig
+					r.Detail = fmt.Sprintf("%s\nworkload=%s client=%s faults=%v", f[0].Detail, rp.W, sc.Client, sc.Faults)
+					r.Trace = a.Tail(100)
+					return r
+				}
+				if checked > 0 {
+					r.NT = append(r.NT, fw.Hash("retry", rp.W, sc.Client, a.FaultShape(), i))
+				}
+			}
+		}
+		r.Sample = map[string]interface{}{"mode": "retry", "workloads": wl}
 	case p.Seq != nil:
 		runOne(p.Seq, p.Chunk, p.Handler, p.Step)
 	case p.Mode == "exh":
